@@ -90,7 +90,7 @@ impl Number {
                 config
             } else {
                 FmtFloatConfig::default()
-                    .max_significant_digits(options.significant_digits as u8)
+                    .max_significant_digits(options.significant_digits.clamp(1, u8::MAX as usize) as u8)
                     .add_point_zero(false)
                     .lower_e_break(-6)
                     .upper_e_break(6)
